@@ -344,6 +344,7 @@ type schedRet struct {
 
 type sched struct {
 	rootArgs []sVal // arguments of the interpreted entry point
+	followed map[*ssa.Function]bool // functions whose bodies were interpreted (calls followed)
 	p       *Prog
 	tables  map[string]*tabSem
 	nextID  int
